@@ -992,20 +992,23 @@ func (c *Compiler) writeNode(node, parent *node, recv, v, vsrc string, depth int
 			// No return here: v is a copy of the map entry or slice element, the parent stores it back.
 		}
 	}
-	if requireLenCheck {
-		c.wl("}")
-	}
-	// Special case to take value by pointer to avoid allocation.
-	if (node.typ == typeStruct || node.typ == typeMap || node.typ == typeSlice) && mode == modeGet && v != "x" {
+	// Special case to take value by pointer to avoid allocation: the path ends at this node.
+	// It must not run after the nested block, otherwise a path that goes deeper (an element, a missing key,
+	// an unknown field) would overwrite the result with the enclosing container.
+	if requireLenCheck && mode == modeGet && v != "x" {
 		pfx := ""
 		if parent != nil && parent.typ != typeSlice {
 			pfx = "&"
 		}
+		c.wl("} else {")
 		if len(vsrc) > 0 {
 			c.wl("*buf = ", pfx, vsrc)
 		} else {
 			c.wl("*buf = ", pfx, v)
 		}
+	}
+	if requireLenCheck {
+		c.wl("}")
 	}
 
 	return c.err
